@@ -559,7 +559,7 @@ fn part_keepalive(acc: &mut Acc, tier: Tier) -> serde_json::Value {
             let sc = script(d, o.clone(), None, HeaderMap::new(), Delay::None);
             let (svc, _l) = SvcCfg { script: Some(sc), ..Default::default() }.build();
             let req = base.req.build(body_one_frame(&base.body))?;
-            let t = block_on(consume(&svc, req, Consumer::Eager)).ok()?;
+            let t = block_on(futures::FutureExt::catch_unwind(std::panic::AssertUnwindSafe(consume(&svc, req, Consumer::Eager)))).ok()?.ok()?;
             strip_decl_and_space(&t.resp.body_str()).map(str::to_owned)
         })
         .collect();
@@ -577,10 +577,16 @@ fn part_keepalive(acc: &mut Acc, tier: Tier) -> serde_json::Value {
         let sc = script(d, outcome.clone(), None, hm.clone(), delay.clone());
         let (svc, _l) = SvcCfg { script: Some(sc), ..Default::default() }.build();
         let Some(req) = base.req.build(body_one_frame(&base.body)) else { return };
-        let t = match block_on(consume(&svc, req, consumer)) {
-            Ok(t) => t,
-            Err(e) => {
+        let t = match block_on(futures::FutureExt::catch_unwind(std::panic::AssertUnwindSafe(consume(&svc, req, consumer)))) {
+            Ok(Ok(t)) => t,
+            Ok(Err(e)) => {
                 a.fail("C03/keepalive/transport-failure", order, id(), e, json!({}));
+                return;
+            }
+            Err(p) => {
+                let msg = p.downcast_ref::<String>().cloned().or_else(|| p.downcast_ref::<&str>().map(|s| (*s).to_owned())).unwrap_or_default();
+                a.outcome("keep-alive: THE RESPONSE BODY PANICS");
+                a.fail("C03/keepalive/response-body-panics", order, id(), format!("polling the response body panicked: {msg} (at {})", LAST_PANIC_LOCATION.with(|c| c.borrow().clone())), json!({}));
                 return;
             }
         };
@@ -703,7 +709,13 @@ fn part_keepalive(acc: &mut Acc, tier: Tier) -> serde_json::Value {
         let sc = script(d, Outcome::Ok(alts.clone()), None, HeaderMap::new(), Delay::Ms(ms));
         let (svc, _l) = SvcCfg { script: Some(sc), ..Default::default() }.build();
         let (proxy, _c) = sdk::proxy(svc, Addressing::Path, true, None);
-        let res = block_on(async { tokio::time::timeout(Duration::from_secs(600), d.call(&proxy, &[])).await });
+        let res = match block_on(futures::FutureExt::catch_unwind(std::panic::AssertUnwindSafe(async { tokio::time::timeout(Duration::from_secs(600), d.call(&proxy, &[])).await }))) {
+            Ok(r) => r,
+            Err(_) => {
+                acc.fail("C03/keepalive/response-body-panics", ms, id(), format!("the SDK call panicked inside the adapter when the backend completes after {ms} ms (at {})", LAST_PANIC_LOCATION.with(|c| c.borrow().clone())), json!({}));
+                continue;
+            }
+        };
         match res {
             Ok(Ok(got)) => match block_on(d.diff_output(&alts, got)) {
                 Ok((diff, _, _)) if diff.is_empty() => acc.outcome("keep-alive: the SDK decodes the delayed document"),
